@@ -35,6 +35,7 @@ type overlayStats struct {
 	ProbeSites int      `json:"probe_sites"`
 	Pools      []string `json:"pools"`
 	Flipped    []string `json:"constraint_flipped"`
+	GrowthSites []string `json:"growth_sites_rewritten"`
 }
 
 // repoGoFiles lists non-test .go files of the library, relative to repo.
@@ -63,7 +64,7 @@ func repoGoFiles(repo string) ([]string, error) {
 // treeHash identifies (library sources + simulator sources + generator version).
 func treeHash(repo, verif string) (string, error) {
 	h := sha256.New()
-	h.Write([]byte("overlaygen-v8\n"))
+	h.Write([]byte("overlaygen-v9\n"))
 	if exe, err := os.Executable(); err == nil {
 		if b, err := os.ReadFile(exe); err == nil {
 			h.Write(b)
@@ -181,6 +182,22 @@ func genOverlay(repo, verif, out, flavour string) (map[string]string, *overlaySt
 			}
 		}
 
+		// growth sites of the converters' output buffer: make([]byte, l, c) -> simrt.MakeBytes(l, c)
+		if rel == "internal/rt/fastmem.go" || rel == "conv/j2t/impl_amd64.go" {
+			for _, pat := range []string{"tmp := make([]byte, l, c)", "tmp := make([]byte, len(*buf), c)"} {
+				if i := strings.Index(string(src), pat); i >= 0 {
+					repl := strings.Replace(pat, "make([]byte, ", "simrt.MakeBytes(", 1)
+					eds = append(eds, edit{i, len(pat), repl})
+					st.GrowthSites = append(st.GrowthSites, rel)
+					if rel == "internal/rt/fastmem.go" {
+						// package rt gets no yields, so it needs the import added here
+						if j := strings.Index(string(src), "package rt"); j >= 0 {
+							eds = append(eds, edit{j + len("package rt"), 0, simrtImport})
+						}
+					}
+				}
+			}
+		}
 		generated := strings.HasPrefix(base, "native_text_") || strings.HasPrefix(base, "native_subr_")
 		if !generated {
 			f, err := parser.ParseFile(fset, filepath.Join(repo, rel), src, parser.ParseComments)
